@@ -279,6 +279,37 @@ type bConn struct {
 	c      net.Conn
 	svc    uint64
 	closed bool
+	// background reader (every connection is drained all the time: a fan-out larger than a ring
+	// must not stall the publisher while the replayer looks at another connection)
+	mu   sync.Mutex
+	rx   []rawPkt
+	eof  error
+	sig  chan struct{}
+	rdOn bool
+}
+
+func (m *bConn) startReader() {
+	m.sig = make(chan struct{}, 1)
+	m.rdOn = true
+	go func() {
+		for {
+			p, err := readPkt(m.c, time.Hour)
+			m.mu.Lock()
+			if err != nil {
+				m.eof = err
+			} else {
+				m.rx = append(m.rx, p)
+			}
+			m.mu.Unlock()
+			select {
+			case m.sig <- struct{}{}:
+			default:
+			}
+			if err != nil {
+				return
+			}
+		}
+	}()
 }
 
 type localSub struct {
@@ -413,20 +444,62 @@ func refusedFirstPacket(kind string) []byte {
 
 // barrier: PINGREQ, then everything up to the PINGRESP
 func (r *brokerRun) barrier(m *bConn) ([]bPkt, error) {
+	if !m.rdOn {
+		m.c.SetWriteDeadline(time.Now().Add(r.tmo))
+		if _, err := m.c.Write([]byte{0xc0, 0}); err != nil {
+			return nil, fmt.Errorf("write PINGREQ: %v", err)
+		}
+		var out []bPkt
+		for {
+			p, err := readPkt(m.c, r.tmo)
+			if err != nil {
+				return out, err
+			}
+			if p.first == 0xd0 {
+				return out, nil
+			}
+			out = append(out, decodeRaw(p))
+		}
+	}
 	m.c.SetWriteDeadline(time.Now().Add(r.tmo))
 	if _, err := m.c.Write([]byte{0xc0, 0}); err != nil {
 		return nil, fmt.Errorf("write PINGREQ: %v", err)
 	}
-	var out []bPkt
+	deadline := time.After(r.tmo)
 	for {
-		p, err := readPkt(m.c, r.tmo)
+		m.mu.Lock()
+		for i, p := range m.rx {
+			if p.first == 0xd0 {
+				var out []bPkt
+				for _, q := range m.rx[:i] {
+					out = append(out, decodeRaw(q))
+				}
+				m.rx = append([]rawPkt(nil), m.rx[i+1:]...)
+				m.mu.Unlock()
+				return out, nil
+			}
+		}
+		err := m.eof
+		var got []bPkt
 		if err != nil {
-			return out, err
+			for _, q := range m.rx {
+				got = append(got, decodeRaw(q))
+			}
 		}
-		if p.first == 0xd0 {
-			return out, nil
+		m.mu.Unlock()
+		if err != nil {
+			return got, err
 		}
-		out = append(out, decodeRaw(p))
+		select {
+		case <-m.sig:
+		case <-deadline:
+			m.mu.Lock()
+			for _, q := range m.rx {
+				got = append(got, decodeRaw(q))
+			}
+			m.mu.Unlock()
+			return got, fmt.Errorf("no PINGRESP within %v", r.tmo)
+		}
 	}
 }
 
@@ -575,6 +648,7 @@ func runBehaviour(steps []bStep, auth string, maxqos int, res *Result) *brokerMi
 				if m.svc == 0 {
 					return &brokerMismatch{where + ": connection accepted (CONNACK) but never admitted", "C11"}
 				}
+				m.startReader()
 			} else {
 				// a refused connection: optional CONNACK, then the broker closes; further packets have no effect
 				for {
